@@ -89,11 +89,16 @@ def factor_power_check():
     V = AntiSymmetricTensor("V", (i, j), (a, b), 1)
     den = sum((1 if s.space == "occ" else -1) * NonSymmetricTensor("e", (s,)) for s in (i, j, a, b))
     model = HFModel(13)
-    for expo_v, expo_d in ((2, 1), (1, 2), (2, 2), (3, 2)):
-        e0 = Expr(V ** expo_v / den ** expo_d, real=True, target_idx=[])
+    X = AntiSymmetricTensor("X", (a, b), (i, j))
+    # with the free tensor X the odd powers do not vanish by antisymmetry; the last two shapes keep
+    # the indices as targets (block of a tensor instead of a number)
+    for expo_v, expo_d, rest, targets in ((2, 1, 1, []), (1, 2, 1, []), (2, 2, 1, []), (3, 2, 1, []),
+                                          (1, 2, X, []), (2, 3, X, []), (1, 3, X, []), (3, 1, X, []),
+                                          (1, 2, 1, [i, j, a, b]), (2, 3, 1, [i, j, a, b])):
+        e0 = Expr(V ** expo_v * rest / den ** expo_d, real=True, target_idx=targets)
         fact = factor_intermediates(e0.copy(), types_or_names=["t2_1"])
         back = fact.copy().expand_intermediates().expand()
-        ok, d = same_value(e0.sympy, back.sympy, [], model)
+        ok, d = same_value(e0.sympy, back.sympy, targets, model)
         if not ok:
             return False, f"factoring t2_1 in {e0} gives {fact}, which expands to a different value: {d}"
     return True, ""
